@@ -41,7 +41,8 @@ REG['C11'] = dict(
     thorough_cfg={'grid_n_max': 400})
 
 REG['C12'] = dict(
-    oracle='c12', profiles=[('sched', 1, {'mixed_time_units': True})],
+    oracle='c12', profiles=[('sched', 1, {'mixed_time_units': True,
+                                          'differential': True})],
     quick=4000, thorough=150000,
     vacuity=['compared_instants', 'pairs_split', 'pairs_rerun',
              'unit_switch_splits', 'rerun_same_solver', 'rerun_new_solver',
@@ -184,6 +185,26 @@ REG['C20'] = dict(
     'case); non-trivial = an assembly was judged against the chain walk of '
     'the declaration model',
     stubs=['none (declaration calls only)'])
+
+_H = {'house': True, 'mixed_time_units': False, 'differential': True}
+REG['C07'] = dict(
+    oracle='c07', profiles=[('dyn', 3, _H), ('ctrl', 2, _H), ('lock', 1, _H),
+                            ('stop', 1, _H), ('query', 1, _H)],
+    quick=3000, thorough=120000,
+    vacuity=['builds_compared', 'compared_instants', 'snapshots_compared',
+             'unit_Angle:rad', 'unit_Angle:arcsec', 'unit_Angle:rot',
+             'unit_InertiaMoment:gcm^2', 'unit_Torque:kgfcm',
+             'unit_TimeInterval:ms', 'unit_TimeInterval:hour',
+             'unit_Current:uA', 'unit_Length:dm', 'unit_Stress:kPa',
+             'unit_AngularSpeed:rph', 'unit_AngularPosition:arcmin',
+             'unit_Time:min'],
+    rule='differential simulation: scenario A in the house units of the docs '
+    'against B, the same physical model with a seeded unit for every input '
+    'quantity (component parameters, initial conditions, dt, T, timer '
+    'start/duration, thresholds, rule targets/braking angles/limit currents, '
+    'worm pressure and helix angles, load output unit); distinct = (chain '
+    'kinds, schedule, fired faults, units drawn); non-trivial = two builds '
+    'or two histories compared')
 
 NOT_APPLICABLE = [
     {'property_id': 'C05',
